@@ -1,2 +1,3 @@
 pub mod bv;
 pub mod expr_eval;
+pub mod sim;
